@@ -143,6 +143,22 @@ func c08CorpusRange(run *evid.Run, seed int64, from, to int, checkAll bool) []st
 		w := hx.NewWorld(seed, 3, fmt.Sprintf("c08-%d", i), "hash", codec)
 		io := w.IOv()
 		ident := w.Idents[rng.Intn(3)]
+		if i%7 == 5 {
+			// a second RECORD of the same writer: same id, type and public key, other signature bytes (a re-signed or
+			// re-encoded identity record); what is decoded must be the record that was stored, whatever the process has
+			// decoded before
+			c := *ident
+			sg := *ident.Signatures
+			sg.ID = append([]byte(nil), sg.ID...)
+			sg.PublicKey = append([]byte(nil), sg.PublicKey...)
+			sg.PublicKey[len(sg.PublicKey)-1] ^= byte(1 + i%250)
+			if i%2 == 0 {
+				sg.ID[len(sg.ID)/2] ^= 0x40
+			}
+			c.Signatures = &sg
+			ident = &c
+			run.Count("entries_with_a_second_record_of_a_writers_identity", 1)
+		}
 		class := payloadClasses[rng.Intn(len(payloadClasses))]
 		if class == "big" && rng.Intn(5) != 0 {
 			class = "binary"
